@@ -60,6 +60,8 @@ def admissible(state_space, single, two):
 
 
 class Slim(probe.Contract):
+    freeze = True  # the oracle sees the arguments as they were at call entry; arrays / lists rewritten by the call are reported
+    input_prop = P
     def __init__(self, name):
         self.api = 'slim.' + name
         self.name = name
@@ -100,6 +102,8 @@ class Slim(probe.Contract):
 
 
 class Ulam(probe.Contract):
+    freeze = True  # the oracle sees the arguments as they were at call entry; arrays / lists rewritten by the call are reported
+    input_prop = P
     def __init__(self, name, dim):
         self.api = 'ulam.' + name
         self.dim = dim
